@@ -235,3 +235,4 @@ Qed.
 (* ---- the loops of the entry points ---- *)
 Inductive equiv_test := CmpIsZero | CmpOther.
 Inductive find_loop := FindEveryMember | FindCached.
+Inductive version_arg := ByKeyword | Positional.
